@@ -10,6 +10,7 @@ import (
 
 	"github.com/sourcegraph/zoekt"
 	"github.com/sourcegraph/zoekt/index"
+	"github.com/sourcegraph/zoekt/internal/verifhook"
 )
 
 // mergeMeta updates the .meta files for the shards on disk for o.
@@ -70,6 +71,7 @@ func mergeMeta(o *index.Options) error {
 	// failure.
 	var renameErr error
 	for tmp, dst := range todo {
+		verifhook.FS("rename-meta", tmp, dst)
 		if err := os.Rename(tmp, dst); err != nil {
 			renameErr = err
 		}
@@ -89,6 +91,7 @@ func jsonMarshalTmpFile(v any, p string) (_ string, err error) {
 		return "", err
 	}
 
+	verifhook.FS("create-meta", p)
 	f, err := os.CreateTemp(filepath.Dir(p), filepath.Base(p)+".*.tmp")
 	if err != nil {
 		return "", err
